@@ -137,8 +137,10 @@ def run_harness(h, cfile, workdir, cfg, tier='quick'):
         res['wall_s'] = time.time() - t0
         return res
     target = gb1
-    if h['enforce']:
-        cmd = ['goto-instrument', '--no-malloc-may-fail', '--dfcc', name, '--enforce-contract', h['enforce']]
+    if h['enforce'] or h.get('dfcc_entry'):
+        cmd = ['goto-instrument', '--no-malloc-may-fail', '--dfcc', name]
+        if h['enforce']:
+            cmd += ['--enforce-contract', h['enforce']]
         for r in h['replace']:
             cmd += ['--replace-call-with-contract', r]
         if h['loopc']:
